@@ -75,6 +75,8 @@ class ValueGen:
             elif ins.tag == "length":
                 if ins.optional and state["missing"]:
                     pass
+            elif ins.tag == "break":
+                state["missing"] = False        # optional fields of the next chunk are present or absent on their own
             elif ins.tag == "chunked":
                 self._gen_body(cd, ins.body, fields, bias, state, depth)
             elif ins.tag == "switch":
